@@ -217,7 +217,25 @@ let () =
              if go_m <> "ERR" && not (twkb_ok o gi bs) then
                fail id "SPEC" "ring_closure_zm"
                  (trunc ("F73-class: a ring is closed in X and Y but its closing vertex differs from the first vertex in Z or M; opts=" ^ f.(3)))
-           end else count "outside_domain"
+           end else begin
+             count "outside_domain";
+             (* the implementation encoded something the model's writer refuses (e.g. an empty Point inside a
+                MultiPoint): whatever policy it follows (refuse / drop the member), the property still says that
+                no ordinate is invented: every ordinate of the decoded geometry must be a rounded input ordinate *)
+             (match mm with
+              | Ok _ -> ()
+              | _ ->
+                if go_m <> "ERR" && go_d <> "ERR" && go_d <> "PANIC" then begin
+                  count "accepted_where_model_refuses";
+                  let toks s = List.filter (fun t -> String.length t = 16) (String.split_on_char ' ' s) in
+                  let exp = toks (dump_geom (expected_geom o gi)) in
+                  (match List.filter (fun t -> not (List.mem t exp)) (toks go_d) with
+                   | [] -> ()
+                   | bad -> fail id "SPEC" "ordinate_invented"
+                              (trunc (Printf.sprintf "%d decoded ordinate(s) are no rounded input ordinate, first=%s; in=%s decoded=%s"
+                                        (List.length bad) (List.hd bad) f.(4) go_d)))
+                end)
+           end
          | _ ->
            (* a scaled ordinate leaves int64 (or is not finite): the writer must refuse *)
            count "overflow_inputs";
